@@ -252,6 +252,28 @@ func runShapes(r *Run, shapes []Shape, o eqOpts, perShapePaths int) {
 		if len(whys) > 0 {
 			fmt.Printf("note: shape %s: %d inconclusive paths, e.g. %s\n", sh.Name, inc, whys[0])
 		}
+		// reachability witness: the same shape against a reference that is wrong on purpose must end in a difference
+		if !sh.ExpectReject && (ok > 0 || len(diffs) > 0) && (r.Tier == "quick" || !strings.HasSuffix(sh.Name, "-generated")) {
+			twinDiff, twinPaths := false, 0
+			ot := o
+			ot.Twin = true
+			r.Eng.Explore(func(c *gosym.Ctx) interface{} { return bashEquiv(r, c, sh, ot) },
+				gosym.ExploreOpts{Workers: 2, TimeoutMS: 10000, Budget: gosym.Budget{MaxPaths: 6}, OnPath: func(pr *gosym.PathResult) {
+					twinPaths++
+					if eo, isEo := pr.Ret.(eqOutcome); isEo && eo.Kind == "diff" {
+						twinDiff = true
+					}
+					if _, isProbe := pr.Probe.(eqOutcome); isProbe {
+						twinDiff = true // decided by a concrete probe, like the path itself
+					}
+				}})
+			r.AddCount("reachability_twins", 1)
+			if twinDiff {
+				r.AddCount("reachability_twins_violated_as_expected", 1)
+			} else {
+				fmt.Printf("note: shape %s: the twin with a deliberately wrong reference was not reported as different on any of %d paths (vacuous harness?)\n", sh.Name, twinPaths)
+			}
+		}
 		if excl > 0 && ok == 0 && len(diffs) == 0 && inc == 0 {
 			// every path of the shape lies outside the property's quantifier: the shape checks nothing
 			fmt.Printf("note: shape %s: all %d paths are excluded inputs (the shape checks nothing)\n", sh.Name, excl)
